@@ -3,7 +3,8 @@
 import base64
 from enrlib import *
 
-SEQ_POOL = [0, 1, 2, 127, 128, 255, 256, 65535, 65536, 2**32 - 1, 2**32, 2**63, 2**64 - 2, 2**64 - 1]
+SEQ_POOL = [0, 1, 2, 55, 56, 127, 128, 255, 256, 65535, 65536, 2**24 - 1, 2**24, 2**32 - 1, 2**32, 2**40 - 1, 2**40, 2**48 - 1, 2**48,
+            2**56 - 1, 2**56, 2**63 - 1, 2**63, 2**64 - 2, 2**64 - 1]
 PORT_POOL = [0, 1, 127, 128, 255, 256, 30303, 65535]
 RESERVED = [b"id", b"ip", b"ip6", b"tcp", b"tcp6", b"udp", b"udp6", b"secp256k1", b"ed25519", b"client"]
 CUSTOM_KEYS = [b"", b"a", b"\x80", b"foo", b"zz", b"ip5", b"tcp7", b"udp", b"eth", b"eth2", b"attnets", b"\x00", b"\x7f",
@@ -247,6 +248,27 @@ def tampers(rng, oracle, rec, others, n_flips=None):
     for bad in (sg[:-1], sg + b"\x00", b"", sg[:32], sg + sg):
         out.append(("wrong_length_sig", record_bytes(oracle, key, seq, pl, sort=False, sig=bad)[0]))
     return out
+
+
+def content_twin(rng, oracle, rec):
+    """the record with one value changed (or one pair added) but the SAME seq, public key and signature:
+    rejected when decoded on its own; a decoder that remembers "I verified this signature just now" accepts it
+    right after the genuine record"""
+    key, seq, pl = rec["key"], rec["seq"], list(rec["pairs"])
+    d = dict(pl)
+    c = rng.random()
+    cand = [k for k in d if k not in (b"id", key.entry)]
+    if cand and c < 0.6:
+        k = rng.choice(cand)
+        v = bytearray(d[k])
+        if len(v) >= 1:
+            v[-1] ^= 1
+        d[k] = bytes(v)
+        if d[k][:1] == b"\x81" and len(d[k]) == 2 and d[k][1] < 0x80:   # keep it canonical
+            d[k] = bytes([d[k][1]])
+    else:
+        d[b"zz9"] = rlp_str(rbytes(rng, 3))
+    return record_bytes(oracle, key, seq, sorted(d.items()), sort=False, sig=rec["sig"])[0]
 
 
 def unstructured(rng, n):
